@@ -87,6 +87,7 @@ var c09Streams = []string{
 	"",
 	" \n",
 	"[1]\n[2]\n[3]\n[4]\n[5]\n[6]\n",
+	"{\"k\":\"" + strings.Repeat("x", 150) + "\"}\n[2]\n", // a line longer than the (scaled) chunk and bufio buffers
 }
 
 type c09Obs struct {
@@ -397,6 +398,23 @@ func c09Body(w *W) {
 		quick := !w.Thorough()
 		if quick && si == 5 {
 			continue // four documents: thorough tier only
+		}
+		if si == 9 {
+			// long line: no cut, and single cuts every 8 bytes
+			var cutsets [][]int
+			cutsets = append(cutsets, nil)
+			for c := 8; c < n; c += 8 {
+				cutsets = append(cutsets, []int{c})
+			}
+			for _, cuts := range cutsets {
+				if w.Mine() {
+					run(job{c09Env{Stream: si, Cuts: cuts, FaultAt: -1, Recycle: 0xff, Gomax: 3, ResCap: 0, TmpSize: 64}, pb, 0}, stream, want)
+				}
+				if w.Mine() {
+					run(job{c09Env{Stream: si, Cuts: cuts, FaultAt: -1, Recycle: 0, Gomax: 1, ResCap: 2, TmpSize: 64, EOFData: true}, pb, 0}, stream, want)
+				}
+			}
+			continue
 		}
 		if si == 8 {
 			// six one-line chunks, every value recycled: a chunk buffer handed back to the pool
